@@ -446,6 +446,86 @@ def rule_extrema(ctx):
 
 rule_memorder = layout.make_rule("R-C16-memorder", "raw memory-order buffers (as_slice_memory_order, into_raw_vec, as_ptr) of record matrices are used by position only behind an is_standard_layout() test", lambda f: (f["d"]["krate"] == "linfa_preprocessing" and any(x in fn_file(f) for x in ("linear_scaling", "norm_scaling", "whitening"))) or (f["d"]["krate"] == "linfa" and fn_file(f).endswith("lapack_bounds.rs")), "linfa-preprocessing scalers and whiteners and the linfa::dataset lapack adapters they call")
 
+BATCH_REDUCTIONS = {"mean", "sum", "std", "var", "product", "mean_axis", "sum_axis", "std_axis", "var_axis", "fold", "fold_axis", "min", "max",
+              "norm_l1", "norm_l2", "norm_max", "norm", "quantile_axis_mut", "quantile_mut"}
+
+
+def rule_fitted(ctx):
+    """A fitted scaler / whitener applies the statistics of the data it was *fitted* on: `transform` of a matrix is a
+    function of the fitted offsets, scales and matrix and of each sample alone.  A statistic taken across the samples of
+    the matrix being transformed (a column mean, a column sum ..) makes the result depend on which other samples are in the
+    batch - for the fitting data the two coincide, which is all the tests look at."""
+    res = RuleResult("R-C16-fitted", "`transform` of a fitted scaler / whitener takes no statistic across the samples of the matrix it transforms")
+    F = ctx.facts()
+    fns = [f for f in F.all_fns() if f["d"]["krate"] == "linfa_preprocessing" and f["d"]["name"] == "transform" and not f.get("exp")
+           and fn_file(f).endswith(("linear_scaling.rs", "whitening.rs")) and "DatasetBase" not in (f["inputs"][1] if len(f["inputs"]) > 1 else "")]
+    if len(fns) < 2:
+        res.missing_anchor("the matrix `transform` of LinearScaler and FittedWhitener (found %d)" % len(fns))
+
+    def axis_of(call):
+        for a in call["args"]:
+            a = peel_refs(a)
+            if a.get("k") == "Call" and a["args"] and peel_refs(a["args"][0]).get("k") == "Lit":
+                return str(peel_refs(a["args"][0]).get("v"))
+        return None
+    for fn in fns:
+        c = fn["crate"]
+        r = Render(c)
+        key = fn_key(fn)
+        res.instance(key)
+        whole = {b["local"] for p_ in fn["params"][1:] for b in pat_bindings(p_)}
+        cols = set()
+        changed = True
+        while changed:
+            changed = False
+            for y in walk(fn["body"]):
+                if y.get("k") == "LetStmt" and y.get("init") is not None and y["pat"].get("k") == "Bind":
+                    i0 = peel_refs(y["init"])
+                    while i0.get("k") == "MethodCall" and i0["name"] in ("view", "view_mut", "to_owned", "clone", "into_owned", "reborrow"):
+                        i0 = peel_refs(i0["recv"])
+                    if i0.get("k") == "Path" and i0.get("local") in whole and y["pat"]["local"] not in whole:
+                        whole.add(y["pat"]["local"])
+                        changed = True
+        # closure parameters fed by a walk over the columns of the input
+        for y in walk(fn["body"]):
+            if y.get("k") != "MethodCall":
+                continue
+            cls = [strip(a) for a in y["args"] if strip(a).get("k") == "Closure"]
+            if not cls:
+                continue
+            spans = False
+            for z in walk(y["recv"]):
+                if z.get("k") == "MethodCall" and peel_refs(z["recv"]).get("local") in whole:
+                    if z["name"] in ("columns", "columns_mut", "gencolumns", "gencolumns_mut") or (z["name"] in ("axis_iter", "axis_iter_mut", "lanes", "lanes_mut") and axis_of(z) == ("1" if z["name"].startswith("axis_iter") else "0")):
+                        spans = True
+            if spans:
+                for cl in cls:
+                    for p_ in cl["params"]:
+                        for b in pat_bindings(p_):
+                            if "ArrayBase" in (c.ty(b.get("t")) or "ArrayBase"):
+                                cols.add(b["local"])
+        bad = None
+        for y in walk(fn["body"]):
+            if y.get("k") != "MethodCall" or y["name"] not in BATCH_REDUCTIONS:
+                continue
+            rv = peel_refs(y["recv"])
+            while rv.get("k") == "MethodCall" and rv["name"] in ("view", "view_mut", "to_owned", "clone", "iter", "mapv", "map"):
+                rv = peel_refs(rv["recv"])
+            if rv.get("k") != "Path" or "local" not in rv:
+                continue
+            if rv["local"] in cols:
+                bad = (y, "a column of the input")
+            elif rv["local"] in whole and not (y["name"].endswith("_axis") and axis_of(y) == "1"):
+                bad = (y, "the input")
+            if bad:
+                break
+        if bad:
+            res.violate("%s : transform-uses-batch-statistic:%s" % (key, bad[0]["name"]), "`%s` is taken over %s, across the samples being transformed: what a sample is mapped to then depends on the rest of the batch, not on the fitted statistics alone" % (r.e(bad[0])[:50], bad[1]), fn_loc(fn, bad[0].get("ln")))
+        else:
+            res.ok()
+    return res.finish(2)
+
+
 def rule_stale(ctx):
     """no field of a fitted model is computed from a local that is stored in another field and mutated in between (rules/stale.py)"""
     from . import stale
@@ -470,7 +550,7 @@ def rule_stale(ctx):
 def rules(tier):
     from . import carry, c04
     from . import precision
-    return [rule_meta, rule_empty, rule_div, rule_affine, rule_extrema, rule_memorder, rule_stale,
+    return [rule_fitted, rule_meta, rule_empty, rule_div, rule_affine, rule_extrema, rule_memorder, rule_stale,
             carry.make_clone_rule("R-C16-clone", {"linfa_preprocessing"}, 8), carry.make_setter_rule("R-C16-override", {"linfa_preprocessing"}, 4),
             precision.make_rule("R-C16-precision", lambda f: f["d"]["krate"] == "linfa_preprocessing" and any(x in fn_file(f) for x in ("linear_scaling", "norm_scaling", "whitening")), 25, "linfa-preprocessing scalers and whiteners"),
             carry.make_accessor_rule("R-C16-accessor", {"linfa_preprocessing"}, 6), carry.make_ctor_rule("R-C16-ctor", {"linfa_preprocessing"}, 2)]
